@@ -185,10 +185,19 @@ static int parse_seg(char *w, size_t *align, uint8_t **dat, size_t *len)
 	return 0;
 }
 
+/* a call that does not return within the limit becomes a result line (and ends the process) */
+static void on_alarm(int sig)
+{
+	static const char msg[] = "\nFAULT hang (no return within 10 s)\n";
+	(void) sig;
+	if (write(1, msg, sizeof(msg) - 1) < 0) { }
+	_exit(95);
+}
 int main(void)
 {
 	static char line[1 << 20];
 	drv_init();
+	signal(SIGALRM, on_alarm);
 	while (fgets(line, sizeof(line), stdin)) {
 		if (line[0] == '#' || line[0] == '\n') { fputs(line, stdout); continue; }
 		drv_split(line);
@@ -261,13 +270,17 @@ int main(void)
 				if (drv_parse_data(drv_w[2], &dat, &dlen, &isnull) || isnull || !dlen) { puts("bad-op"); free(dat); continue; }
 				size_t before = arr._state.done + arr._state.scratch;
 				(void) before;
+				alarm(10);
 				ssize_t n = mpt_array_push(&arr, dlen, dat);
+				alarm(0);
 				free(dat);
 				arr_line(n);
 				printf(" taken=%zd\n", n > 0 ? n : 0);
 			}
 			else if (!strcmp(op, "term") && drv_nw == 2) {
+				alarm(10);
 				ssize_t n = mpt_array_push(&arr, 0, 0);
+				alarm(0);
 				if (n >= 0) { last_start = frame_start; frame_start = arr._state.done; have_frame = 1; }
 				arr_line(n);
 				printf(" taken=0\n");
